@@ -169,6 +169,8 @@ type spec struct {
 	insane      []string // reasons why the program is outside Sane
 	flushed     bool
 	wroteAfter  bool
+	v11         bool
+	nRF         int
 }
 
 func newSpec() *spec { return &spec{explicitCL: -1, feats: map[string]bool{}} }
@@ -241,10 +243,12 @@ func (s *spec) commit(h http.Header, code int) {
 		s.insaneIf(len(te) != 1 || te[0] != "chunked", "transfer-encoding-value")
 		s.insaneIf(s.explicitCL >= 0, "content-length-with-te")
 	}
-	s.insaneIf(http.StatusText(code) == "" && false, "")
 	if code < 200 {
 		s.insaneIf(true, "informational-status")
 	}
+	chunkAsk := len(s.trailerKeys) > 0 || len(s.hdr["Transfer-Encoding"]) > 0
+	s.insaneIf(chunkAsk && !s.v11, "chunked-or-trailer-on-http10")
+	s.insaneIf(chunkAsk && bodiless(code), "chunked-or-trailer-on-bodiless-status")
 }
 
 func bodiless(code int) bool { return code == 204 || code == 304 || (code >= 100 && code < 200) }
@@ -320,6 +324,7 @@ func errName(err error) string {
 // the last op with the *nbhttp.Response.
 func run(cfg caseCfg, ops []op, tr *track.Tracker, lg *nullLogger) *runOut {
 	out := &runOut{sp: newSpec(), bufLen: -1, bodyLen: -1}
+	out.sp.v11 = cfg.v11
 	tr.Reset()
 	tr.MoveOnGrow = cfg.mv
 	var rc *track.RecConn
@@ -443,11 +448,14 @@ func run(cfg caseCfg, ops []op, tr *track.Tracker, lg *nullLogger) *runOut {
 					if !sp.committed {
 						sp.feats["rf-nowh"] = true
 					}
-					if len(sp.body) > 0 {
+					if len(sp.body) > 0 || sp.nRF > 0 {
 						sp.feats["rf-after-write"] = true
+						sp.insaneIf(true, "readfrom-after-body")
 					}
 					sp.commit(h, 200)
 					sp.feats["rf"] = true
+					sp.nRF++
+					sp.insaneIf(sp.explicitCL < 0, "readfrom-without-content-length")
 					content := lp.Pattern(o.off+o.n+37, o.pat)
 					var rd io.Reader
 					var f *os.File
@@ -546,7 +554,7 @@ func hexOrHash(b []byte) string {
 
 // report canonicalises the wire: status line, sorted header lines (Date pinned unless the handler set it),
 // hash of the framed body up to the last-chunk line, sorted trailer lines.
-func report(wire []byte, dateSet bool) string {
+func report(wire []byte) string {
 	head, rest := wire, []byte(nil)
 	if i := bytes.Index(wire, []byte("\r\n\r\n")); i >= 0 {
 		head, rest = wire[:i], wire[i+4:]
@@ -556,7 +564,7 @@ func report(wire []byte, dateSet bool) string {
 	var others []string
 	chunked := false
 	for _, l := range lines[1:] {
-		if !dateSet && bytes.HasPrefix(l, []byte("Date: ")) && len(l) == 6+len(datePlaceholder) {
+		if bytes.HasPrefix(l, []byte("Date: ")) && len(l) == 6+len(datePlaceholder) && bytes.HasSuffix(l, []byte(" GMT")) {
 			l = []byte("Date: " + datePlaceholder)
 		}
 		if string(l) == "Transfer-Encoding: chunked" {
@@ -610,44 +618,46 @@ func featString(m map[string]bool) string {
 	return strings.Join(ks, ",")
 }
 
-// decodeCheck decodes the wire with net/http's client-side parser and compares with what the handler
-// asked for. Returns "" if everything matches.
-func decodeCheck(cfg caseCfg, sp *spec, h http.Header, wire []byte, closed bool) string {
+// decodeCheck decodes the wire with net/http's client-side parser (independent of nbio) and compares
+// with what the handler asked for. Every mismatch is one report line; none = the response is right.
+// nbhttp ignores the request method, so the wire of a HEAD request is decoded like a GET response and
+// the presence of body bytes is reported as the single mismatch "head-body".
+func decodeCheck(cfg caseCfg, sp *spec, h http.Header, wire []byte, closed bool) (ms []string) {
+	add := func(format string, a ...interface{}) { ms = append(ms, fmt.Sprintf(format, a...)) }
 	rd := bytes.NewReader(wire)
 	br := bufio.NewReader(rd)
-	method := "GET"
-	if cfg.head {
-		method = "HEAD"
-	}
-	resp, err := http.ReadResponse(br, &http.Request{Method: method})
+	resp, err := http.ReadResponse(br, &http.Request{Method: "GET"})
 	if err != nil {
-		return fmt.Sprintf("mismatch=parse net/http.ReadResponse: %v", err)
+		add("mismatch=parse net/http.ReadResponse: %v", err)
+		return
 	}
+	hdEnd := bytes.Index(wire, []byte("\r\n\r\n"))
 	wireChunked := len(resp.TransferEncoding) > 0 && resp.TransferEncoding[0] == "chunked"
-	rawChunked := bytes.Contains(wire[:bytes.Index(wire, []byte("\r\n\r\n"))+2], []byte("\r\nTransfer-Encoding: chunked\r\n"))
+	rawChunked := bytes.Contains(wire[:hdEnd+2], []byte("\r\nTransfer-Encoding: chunked\r\n"))
 	if rawChunked && !cfg.v11 {
-		return "mismatch=framing chunked response to an HTTP/1.0 request"
+		add("mismatch=framing chunked response to an HTTP/1.0 request")
+		return
 	}
 	if resp.StatusCode != sp.status {
 		extra := ""
 		if http.StatusText(sp.status) == "" {
 			extra = " unknown-status-text"
 		}
-		return fmt.Sprintf("mismatch=status want=%d got=%d%s", sp.status, resp.StatusCode, extra)
+		add("mismatch=status want=%d got=%d%s", sp.status, resp.StatusCode, extra)
+	} else if st := strings.TrimPrefix(resp.Status, strconv.Itoa(resp.StatusCode)+" "); st != http.StatusText(sp.status) {
+		add("mismatch=reason want=%q got=%q", http.StatusText(sp.status), st)
 	}
 	want := "HTTP/1.0"
 	if cfg.v11 {
 		want = "HTTP/1.1"
 	}
 	if resp.Proto != want {
-		return fmt.Sprintf("mismatch=proto want=%s got=%s", want, resp.Proto)
-	}
-	if st := strings.TrimPrefix(resp.Status, strconv.Itoa(resp.StatusCode)+" "); st != http.StatusText(sp.status) {
-		return fmt.Sprintf("mismatch=reason want=%q got=%q", http.StatusText(sp.status), st)
+		add("mismatch=proto want=%s got=%s", want, resp.Proto)
 	}
 	body, rerr := io.ReadAll(resp.Body)
 	if rerr != nil {
-		return fmt.Sprintf("mismatch=body-read %v after %d of %d body bytes", rerr, len(body), len(sp.body))
+		add("mismatch=body-read %v after %d of %d body bytes", rerr, len(body), len(sp.body))
+		return
 	}
 	isTrailer := map[string]bool{}
 	for _, k := range sp.trailerKeys {
@@ -662,7 +672,7 @@ func decodeCheck(cfg caseCfg, sp *spec, h http.Header, wire []byte, closed bool)
 		}
 		got := resp.Header[k]
 		if strings.Join(got, "\x00") != strings.Join(vv, "\x00") {
-			return fmt.Sprintf("mismatch=header key=%s want=%q got=%q", k, vv, got)
+			add("mismatch=header key=%s want=%q got=%q", k, vv, got)
 		}
 	}
 	for k := range resp.Header {
@@ -672,11 +682,11 @@ func decodeCheck(cfg caseCfg, sp *spec, h http.Header, wire []byte, closed bool)
 		switch k {
 		case "Content-Type", "Content-Length", "Connection", "Date":
 		default:
-			return fmt.Sprintf("mismatch=header unexpected key=%s value=%q", k, resp.Header[k])
+			add("mismatch=header unexpected key=%s value=%q", k, resp.Header[k])
 		}
 	}
 	wantBody := sp.body
-	if cfg.head || bodiless(sp.status) {
+	if bodiless(sp.status) {
 		wantBody = nil
 	}
 	if !bytes.Equal(body, wantBody) {
@@ -684,36 +694,42 @@ func decodeCheck(cfg caseCfg, sp *spec, h http.Header, wire []byte, closed bool)
 		if bytes.HasSuffix(body, wantBody) && len(wantBody) > 0 {
 			hint = " (decoded body = foreign prefix + written bytes)"
 		}
-		return fmt.Sprintf("mismatch=body want=%s got=%s%s", fp(wantBody), fp(body), hint)
+		add("mismatch=body want=%s got=%s%s", fp(wantBody), fp(body), hint)
 	}
-	if !wireChunked && !cfg.head && !bodiless(sp.status) {
+	if !wireChunked && !bodiless(sp.status) {
 		if resp.ContentLength < 0 && !closed {
-			return "mismatch=framing neither Content-Length nor chunked on a connection that stays open"
+			add("mismatch=framing neither Content-Length nor chunked on a connection that stays open")
 		}
 		if sp.explicitCL >= 0 && resp.ContentLength != int64(sp.explicitCL) {
-			return fmt.Sprintf("mismatch=content-length want=%d got=%d", sp.explicitCL, resp.ContentLength)
+			add("mismatch=content-length want=%d got=%d", sp.explicitCL, resp.ContentLength)
 		}
+	}
+	if wireChunked && sp.explicitCL >= 0 {
+		add("mismatch=framing chunked although the handler declared Content-Length %d", sp.explicitCL)
 	}
 	for _, k := range sp.trailerKeys {
 		w := h.Get(k)
 		g := resp.Trailer.Get(k)
 		if w != g {
-			return fmt.Sprintf("mismatch=trailer key=%s want=%q got=%q", k, w, g)
+			add("mismatch=trailer key=%s want=%q got=%q", k, w, g)
 		}
 	}
 	for k := range resp.Trailer {
 		if !isTrailer[k] {
-			return fmt.Sprintf("mismatch=trailer unexpected key=%s", k)
+			add("mismatch=trailer unexpected key=%s", k)
 		}
 	}
 	if left := br.Buffered() + rd.Len(); left > 0 {
-		return fmt.Sprintf("mismatch=leftover %d bytes follow the response", left)
+		add("mismatch=leftover %d bytes follow the response", left)
 	}
 	wantClose := cfg.conn == "close" || (!cfg.v11 && cfg.conn != "ka")
 	if wantClose != closed {
-		return fmt.Sprintf("mismatch=close want=%v got=%v", wantClose, closed)
+		add("mismatch=close want=%v got=%v", wantClose, closed)
 	}
-	return ""
+	if cfg.head && len(wire) > hdEnd+4 {
+		add("mismatch=head-body %d bytes follow the head of a response to a HEAD request", len(wire)-hdEnd-4)
+	}
+	return
 }
 
 // ---------------------------------------------------------------- exec
@@ -762,6 +778,11 @@ func execResp(e *lp.Exec, cline string, lines []string, tr *track.Tracker, lg *n
 		if ok && o.kind == "S" {
 			l = fmt.Sprintf("S %d st=%s", o.code, hexOrDash(http.StatusText(o.code)))
 		}
+		if ok && (o.kind == "H" || o.kind == "A" || o.kind == "X") {
+			f := strings.Fields(l)
+			n := map[string]int{"H": 3, "A": 3, "X": 2}[o.kind]
+			l = strings.Join(f[:n], " ") + " ck=" + hexOrDash(http.CanonicalHeaderKey(o.k))
+		}
 		ops = append(ops, o)
 		echo = append(echo, l)
 	}
@@ -773,12 +794,6 @@ func execResp(e *lp.Exec, cline string, lines []string, tr *track.Tracker, lg *n
 		return
 	}
 	out := run(cfg, ops, tr, lg)
-	dateSet := false
-	for _, o := range ops {
-		if (o.kind == "H" || o.kind == "A") && http.CanonicalHeaderKey(o.k) == "Date" {
-			dateSet = true
-		}
-	}
 	var key strings.Builder
 	fmt.Fprintf(&key, "%v/%v/%s/%v/%v|", cfg.v11, cfg.head, cfg.conn, cfg.fail > 0, cfg.sf)
 	nontrivial := false
@@ -790,7 +805,7 @@ func execResp(e *lp.Exec, cline string, lines []string, tr *track.Tracker, lg *n
 		}
 		r := out.res[i]
 		if r.text == "F" {
-			e.P("F w=%s %s close=%d tr=%s", wString(r.w), report(out.wire, dateSet), out.closed, r.tr)
+			e.P("F w=%s %s close=%d tr=%s", wString(r.w), report(out.wire), out.closed, r.tr)
 		} else if r.text == "dead" || r.text == "done" || strings.HasSuffix(r.text, " dead") || strings.HasSuffix(r.text, "panic") {
 			e.P("%s", r.text)
 		} else {
@@ -869,7 +884,7 @@ func execResp(e *lp.Exec, cline string, lines []string, tr *track.Tracker, lg *n
 				h.Del(o.k)
 			}
 		}
-		if m := decodeCheck(cfg, sp, h, out.wire, out.closed > 0); m != "" {
+		for _, m := range decodeCheck(cfg, sp, h, out.wire, out.closed > 0) {
 			e.Oracle("c09-decode", "%s | feat=%s", m, featString(sp.feats))
 		}
 	}
